@@ -1,16 +1,455 @@
-(* C01 — proofs about model/C01_model.v (all parametric in the digest function H). *)
-From Coq Require Import NArith List String Bool Lia.
-From AV Require Import lib.Str model.C01_model.
+(* C01 — proofs about model/C01_model.v and the boolean specification of model/C01_run.v.
+   Everything is parametric in the digest function H (no property of MD5 is used); where two contents
+   could share a digest the conclusion carries the explicit collision disjunct. *)
+From Coq Require Import NArith Arith List String Bool Lia.
+From AV Require Import lib.Str model.C01_model model.C01_run.
 Import ListNotations.
 Local Open Scope N_scope.
+
+Lemma content_eqb_eq a b : content_eqb a b = true <-> a = b.
+Proof.
+  unfold content_eqb. destruct a as [i l], b as [j m]; cbn. rewrite andb_true_iff, !N.eqb_eq.
+  split; [intros [-> ->]; reflexivity|intros X; inversion X; auto].
+Qed.
+Lemma content_eqb_refl a : content_eqb a a = true.
+Proof. apply content_eqb_eq; reflexivity. Qed.
 
 Section P.
 Variable H : content -> string.
 
-Lemma put_block_ok_hash s h d s' : put_block H s h d = (200, s') -> H d = h.
+(* a copy that GetBlock can serve: a regular file within BlockSize whose digest is the block name *)
+Definition servable (h : string) (v : vol) (c : content) : Prop :=
+  lookup v h = File c /\ clen c <= BlockSize /\ H c = h.
+
+Lemma intact_true h c : intact H h c = true <-> H c = h.
+Proof. unfold intact. apply String.eqb_eq. Qed.
+
+Lemma vol_get_data v h c : vol_get v h = RData c <-> lookup v h = File c /\ clen c <= BlockSize.
 Proof.
-  unfold put_block. destruct (intact H h d) eqn:E; cbn [negb].
-  - intros _. unfold intact in E. apply String.eqb_eq in E. exact E.
-  - intros X. inversion X.
+  unfold vol_get. destruct (lookup v h) as [|c'|]; try (split; [discriminate|intros [X _]; discriminate]).
+  destruct (N.ltb_spec BlockSize (clen c')); split.
+  - discriminate.
+  - intros [X Y]. inversion X; subst. lia.
+  - intros X; inversion X; subst. split; [reflexivity|lia].
+  - intros [X _]. inversion X; reflexivity.
 Qed.
+
+(* ---- GetBlock ---- *)
+Lemma get_sound vs h e c : get_block H vs h e = GOk c -> exists v, In v vs /\ servable h v c.
+Proof.
+  revert e. induction vs as [|v r IH]; intros e Hg; cbn [get_block] in Hg; [discriminate|].
+  destruct (vol_get v h) as [| |c'] eqn:Ev.
+  - destruct (IH _ Hg) as (v' & A & B). exists v'. split; [right; exact A|exact B].
+  - destruct (IH _ Hg) as (v' & A & B). exists v'. split; [right; exact A|exact B].
+  - destruct (intact H h c') eqn:Ei.
+    + inversion Hg; subst c'. apply vol_get_data in Ev. apply intact_true in Ei.
+      exists v. split; [left; reflexivity|]. unfold servable. tauto.
+    + destruct (IH _ Hg) as (v' & A & B). exists v'. split; [right; exact A|exact B].
+Qed.
+
+Lemma get_complete vs h e :
+  (exists v c, In v vs /\ servable h v c) -> exists c, get_block H vs h e = GOk c /\ H c = h.
+Proof.
+  revert e. induction vs as [|v r IH]; intros e (v0 & c0 & Hin & Hs); [contradiction|].
+  cbn [get_block]. destruct Hin as [<-|Hin].
+  - destruct Hs as (A & B & C). assert (E : vol_get v h = RData c0) by (apply vol_get_data; auto).
+    rewrite E. assert (Ei : intact H h c0 = true) by (apply intact_true; exact C). rewrite Ei. eauto.
+  - assert (Hex : exists v c, In v r /\ servable h v c) by eauto.
+    destruct (vol_get v h) as [| |c']; [apply IH; exact Hex|apply IH; exact Hex|].
+    destruct (intact H h c') eqn:Ei; [|apply IH; exact Hex].
+    exists c'. split; [reflexivity|apply intact_true; exact Ei].
+Qed.
+
+Lemma get_error_otherwise vs h e :
+  (forall v c, In v vs -> ~ servable h v c) ->
+  exists e', get_block H vs h e = GErr e' /\ (e' = e \/ e' = 500).
+Proof.
+  revert e. induction vs as [|v r IH]; intros e Hno; cbn [get_block]; [eauto|].
+  assert (Hr : forall v' c, In v' r -> ~ servable h v' c) by (intros v' c A; apply Hno; right; exact A).
+  destruct (vol_get v h) as [| |c'] eqn:Ev; [apply IH; exact Hr|apply IH; exact Hr|].
+  destruct (intact H h c') eqn:Ei.
+  - exfalso. apply vol_get_data in Ev. apply intact_true in Ei. apply (Hno v c'); [left; reflexivity|].
+    unfold servable; tauto.
+  - destruct (IH 500 Hr) as (e' & A & B). exists e'. split; [exact A|]. destruct B; auto.
+Qed.
+
+(* nothing stored under the name anywhere: 404 *)
+Lemma get_all_absent vs h :
+  (forall v, In v vs -> lookup v h = Absent) -> get_block H vs h 404 = GErr 404.
+Proof.
+  induction vs as [|v r IH]; intros Ha; cbn [get_block]; [reflexivity|].
+  unfold vol_get. rewrite (Ha v) by (left; reflexivity). apply IH. intros v' A; apply Ha; right; exact A.
+Qed.
+
+(* ---- PutBlock ---- *)
+Lemma lookup_set_file_same v h d : bad v h = false -> lookup (set_file v h d) h = File d.
+Proof.
+  intros Hb. unfold lookup. assert (E : bad (set_file v h d) h = bad v h) by reflexivity.
+  rewrite E, Hb. cbn [set_file files assoc]. rewrite String.eqb_refl. reflexivity.
+Qed.
+
+Lemma write_vol_ok v h d v' : write_vol v h d = WOk v' -> lookup v' h = File d /\ ro v' = ro v.
+Proof.
+  unfold write_vol. destruct (full v); [discriminate|]. destruct (bad v h) eqn:Eb; [discriminate|].
+  destruct (assoc (files v) h); intros X; inversion X; subst; (split; [apply lookup_set_file_same; exact Eb|reflexivity]).
+Qed.
+
+Lemma set_writable_in vs : forall k v', (k < List.length (writable vs))%nat -> ro v' = false ->
+  In v' (set_writable vs k v').
+Proof.
+  induction vs as [|v r IH]; intros k v' Hk Hro; cbn [writable filter List.length] in Hk; [lia|].
+  cbn [set_writable]. destruct (ro v) eqn:Er; cbn [negb] in Hk.
+  - right. apply IH; assumption.
+  - cbn [List.length] in Hk. destruct k as [|k']; [left; reflexivity|right; apply IH; [unfold writable; lia|exact Hro]].
+Qed.
+
+Lemma nth_writable_ro vs k w0 : (k < List.length (writable vs))%nat -> ro (nth k (writable vs) w0) = false.
+Proof.
+  intros Hk. assert (A : In (nth k (writable vs) w0) (writable vs)) by (apply nth_In; exact Hk).
+  unfold writable in A. apply filter_In in A. destruct A as [_ A]. destruct (ro _); [discriminate|reflexivity].
+Qed.
+
+Lemma put_loop_ok ws : forall k h d af i v', put_loop ws k h d af = LOk i v' ->
+  exists w, nth_error ws (i - k) = Some w /\ write_vol w h d = WOk v' /\ (k <= i)%nat /\ (i - k < List.length ws)%nat.
+Proof.
+  induction ws as [|w r IH]; intros k h d af i v' Hl; cbn [put_loop] in Hl; [discriminate|].
+  destruct (write_vol w h d) as [v''| |] eqn:Ew.
+  - inversion Hl; subst. exists w. rewrite Nat.sub_diag. cbn [nth_error List.length]. repeat split; try lia. exact Ew.
+  - destruct (IH _ _ _ _ _ _ Hl) as (w' & A & B & C & D). exists w'.
+    replace (i - k)%nat with (S (i - S k)) by lia. cbn [nth_error List.length]. repeat split; try lia; assumption.
+  - destruct (IH _ _ _ _ _ _ Hl) as (w' & A & B & C & D). exists w'.
+    replace (i - k)%nat with (S (i - S k)) by lia. cbn [nth_error List.length]. repeat split; try lia; assumption.
+Qed.
+
+Lemma cat_ok_copy ws h d : compare_and_touch H ws h d = CatOk ->
+  exists v, In v ws /\ lookup v h = File d /\ clen d <= BlockSize.
+Proof.
+  induction ws as [|v r IH]; cbn [compare_and_touch]; [discriminate|].
+  unfold compare. destruct (lookup v h) as [|c|] eqn:El.
+  - intros X. destruct (IH X) as (v' & A & B). exists v'. split; [right; exact A|exact B].
+  - destruct (N.ltb_spec BlockSize (clen c)).
+    + intros X. destruct (IH X) as (v' & A & B). exists v'. split; [right; exact A|exact B].
+    + destruct (content_eqb c d) eqn:Ec.
+      * apply content_eqb_eq in Ec. subst c. intros _. exists v. split; [left; reflexivity|]. split; [exact El|lia].
+      * destruct (intact H h c); [discriminate|].
+        intros X. destruct (IH X) as (v' & A & B). exists v'. split; [right; exact A|exact B].
+  - intros X. destruct (IH X) as (v' & A & B). exists v'. split; [right; exact A|exact B].
+Qed.
+
+(* an acknowledged PutBlock: the body hashes to the name and a copy equal to the body is on a volume *)
+Lemma put_block_ok s h d s' : put_block H s h d = (200, s') ->
+  H d = h /\ (clen d <= BlockSize -> exists v, In v (vols s') /\ lookup v h = File d).
+Proof.
+  unfold put_block. destruct (intact H h d) eqn:Ei; cbn [negb]; [|intros X; inversion X].
+  apply intact_true in Ei. intros Hp. split; [exact Ei|]. intros Hlen.
+  destruct (compare_and_touch H (writable (vols s)) h d) eqn:Ec.
+  - inversion Hp; subst s'. destruct (cat_ok_copy _ _ _ Ec) as (v & A & B & _).
+    exists v. split; [|exact B]. unfold writable in A. apply filter_In in A. tauto.
+  - inversion Hp.
+  - destruct (writable (vols s)) as [|w0 ws] eqn:Ew; [inversion Hp|].
+    set (ctr := (counter s + 1) mod 4294967296) in *.
+    set (k := N.to_nat (ctr mod N.of_nat (List.length (w0 :: ws)))) in *.
+    assert (Hk : (k < List.length (writable (vols s)))%nat).
+    { rewrite Ew. subst k. cbn [List.length].
+      assert (ctr mod N.of_nat (S (List.length ws)) < N.of_nat (S (List.length ws))) by (apply N.mod_lt; lia). lia. }
+    destruct (write_vol (nth k (w0 :: ws) w0) h d) as [v'| |] eqn:Ewr.
+    + inversion Hp; subst s'. cbn [vols]. destruct (write_vol_ok _ _ _ _ Ewr) as [A B].
+      exists v'. split; [|exact A]. apply set_writable_in; [exact Hk|].
+      rewrite B, <- Ew. apply nth_writable_ro. exact Hk.
+    + destruct (put_loop (w0 :: ws) 0 h d true) as [i v'|[|]] eqn:El; try (inversion Hp; fail).
+      inversion Hp; subst s'. cbn [vols].
+      destruct (put_loop_ok _ _ _ _ _ _ _ El) as (w & A & B & _ & D). rewrite Nat.sub_0_r in A, D.
+      destruct (write_vol_ok _ _ _ _ B) as [B1 B2]. exists v'. split; [|exact B1].
+      apply set_writable_in; [rewrite Ew; exact D|].
+      rewrite B2. assert (Hin : In w (writable (vols s))) by (rewrite Ew; eapply nth_error_In; exact A).
+      unfold writable in Hin. apply filter_In in Hin. destruct (ro w); [destruct Hin; discriminate|reflexivity].
+    + destruct (put_loop (w0 :: ws) 0 h d true) as [i v'|[|]] eqn:El; try (inversion Hp; fail).
+      inversion Hp; subst s'. cbn [vols].
+      destruct (put_loop_ok _ _ _ _ _ _ _ El) as (w & A & B & _ & D). rewrite Nat.sub_0_r in A, D.
+      destruct (write_vol_ok _ _ _ _ B) as [B1 B2]. exists v'. split; [|exact B1].
+      apply set_writable_in; [rewrite Ew; exact D|].
+      rewrite B2. assert (Hin : In w (writable (vols s))) by (rewrite Ew; eapply nth_error_In; exact A).
+      unfold writable in Hin. apply filter_In in Hin. destruct (ro w); [destruct Hin; discriminate|reflexivity].
+Qed.
+
+(* a PutBlock that is not acknowledged leaves every volume as it was *)
+Lemma put_block_fail_unchanged s h d c s' : put_block H s h d = (c, s') -> c <> 200 -> vols s' = vols s.
+Proof.
+  unfold put_block. destruct (negb (intact H h d)); [intros X; inversion X; reflexivity|].
+  destruct (compare_and_touch H (writable (vols s)) h d); try (intros X; inversion X; reflexivity).
+  destruct (writable (vols s)) as [|w0 ws]; [intros X; inversion X; reflexivity|].
+  destruct (write_vol _ h d); [intros X; inversion X; congruence| |];
+  (destruct (put_loop (w0 :: ws) 0 h d true) as [i v'|[|]]; intros X; inversion X; subst; [congruence|reflexivity|reflexivity]).
+Qed.
+
+(* a stored copy with the same digest but different bytes on a writable volume, met before an
+   identical copy: the request fails with 500 and nothing is written *)
+Lemma put_collision_stops s h d :
+  H d = h -> compare_and_touch H (writable (vols s)) h d = CatCollision -> put_block H s h d = (500, s).
+Proof.
+  intros Hh Hc. unfold put_block. assert (E : intact H h d = true) by (apply intact_true; exact Hh).
+  rewrite E; cbn [negb]. rewrite Hc. reflexivity.
+Qed.
+
+Lemma cat_collision_witness ws h d : compare_and_touch H ws h d = CatCollision ->
+  exists v c, In v ws /\ lookup v h = File c /\ c <> d /\ H c = h.
+Proof.
+  induction ws as [|v r IH]; cbn [compare_and_touch]; [discriminate|].
+  unfold compare. destruct (lookup v h) as [|c|] eqn:El.
+  - intros X. destruct (IH X) as (v' & c' & A & B). exists v', c'. split; [right; exact A|exact B].
+  - destruct (BlockSize <? clen c).
+    + intros X. destruct (IH X) as (v' & c' & A & B). exists v', c'. split; [right; exact A|exact B].
+    + destruct (content_eqb c d) eqn:Ec; [discriminate|].
+      destruct (intact H h c) eqn:Ei.
+      * intros _. exists v, c. split; [left; reflexivity|]. split; [exact El|]. split.
+        -- intros ->. rewrite content_eqb_refl in Ec. discriminate.
+        -- apply intact_true; exact Ei.
+      * intros X. destruct (IH X) as (v' & c' & A & B). exists v', c'. split; [right; exact A|exact B].
+  - intros X. destruct (IH X) as (v' & c' & A & B). exists v', c'. split; [right; exact A|exact B].
+Qed.
+
+(* ---- handler level ---- *)
+Lemma handle_put_ok s h d r s' : handle_put H s h d = (r, s') -> code r = 200 ->
+  H d = h /\ clen d <= BlockSize /\ exists v, In v (vols s') /\ lookup v h = File d.
+Proof.
+  unfold handle_put. destruct (N.ltb_spec BlockSize (clen d)); [intros X; inversion X; subst; cbn; discriminate|].
+  destruct (writable (vols s)) eqn:Ew; [intros X; inversion X; subst; cbn; discriminate|].
+  destruct (put_block H s h d) as [c s1] eqn:Ep. intros X; inversion X; subst. cbn [code]. intros ->.
+  destruct (put_block_ok _ _ _ _ Ep) as [A B]. split; [exact A|]. split; [lia|]. apply B; lia.
+Qed.
+
+Lemma handle_put_fail_unchanged s h d r s' : handle_put H s h d = (r, s') -> code r <> 200 -> vols s' = vols s.
+Proof.
+  unfold handle_put. destruct (BlockSize <? clen d); [intros X; inversion X; reflexivity|].
+  destruct (writable (vols s)); [intros X; inversion X; reflexivity|].
+  destruct (put_block H s h d) as [c s1] eqn:Ep. intros X; inversion X; subst. cbn [code]. intros Hc.
+  eapply put_block_fail_unchanged; eassumption.
+Qed.
+
+Lemma handle_get_ok s h :
+  (exists v c, In v (vols s) /\ servable h v c) ->
+  exists c, handle_get H s h = {| code := 200; body := Some c; clength := Some (clen c) |} /\ H c = h /\
+            exists v, In v (vols s) /\ servable h v c.
+Proof.
+  intros Hex. unfold handle_get. destruct (get_complete _ h 404 Hex) as (c & A & B). rewrite A.
+  exists c. split; [reflexivity|]. split; [exact B|]. apply (get_sound _ _ _ _ A).
+Qed.
+
+Lemma handle_get_err s h :
+  (forall v c, In v (vols s) -> ~ servable h v c) ->
+  exists e, handle_get H s h = {| code := e; body := None; clength := None |} /\ (e = 404 \/ e = 500).
+Proof.
+  intros Hno. unfold handle_get. destruct (get_error_otherwise _ h 404 Hno) as (e & A & B). rewrite A. eauto.
+Qed.
+
+(* once acknowledged, the block is retrievable, whatever was on the volumes before *)
+Lemma put_then_get s h d r s' : handle_put H s h d = (r, s') -> code r = 200 ->
+  exists c, handle_get H s' h = {| code := 200; body := Some c; clength := Some (clen c) |} /\
+            H c = h /\ (c = d \/ (c <> d /\ H c = H d)).
+Proof.
+  intros Hp Hc. destruct (handle_put_ok _ _ _ _ _ Hp Hc) as (A & B & v & C & D).
+  destruct (handle_get_ok s' h) as (c & E & F & _).
+  { exists v, d. split; [exact C|]. unfold servable. tauto. }
+  exists c. split; [exact E|]. split; [exact F|].
+  destruct (content_eqb c d) eqn:Ecd; [left; apply content_eqb_eq; exact Ecd|right].
+  split; [intros ->; rewrite content_eqb_refl in Ecd; discriminate|congruence].
+Qed.
+
 End P.
+
+(* ------------------------------------------------------------------ *)
+(* Prop-level specification over observations, and its boolean reflection *)
+
+Definition ok (code : N) : Prop := code / 100 = 2.
+Definition GoodCopy (dg : content -> string) (h : string) (x : copy) : Prop :=
+  exists c, x = File c /\ dg c = h /\ clen c <= BlockSize.
+Definition IntactSomewhere (dg : content -> string) (h : string) (ls : list (list (string * copy))) : Prop :=
+  exists l x, In l ls /\ In (h, x) l /\ GoodCopy dg h x.
+
+Definition SpecStep (dg : content -> string) (before : list (list (string * copy))) (o : op) (a : obs) : Prop :=
+  match o with
+  | Get h | Head h =>
+      (ok (o_code a) -> exists b, o_body a = Some b /\ dg b = h /\ o_cl a = Some (clen b)) /\
+      (ok (o_code a) <-> IntactSomewhere dg h before)
+  | Put h d => ok (o_code a) -> dg d = h /\ IntactSomewhere dg h (o_after a)
+  end.
+
+Inductive SpecSteps (dg : content -> string) : list (list (string * copy)) -> list op -> list obs -> Prop :=
+| SS_nil before : SpecSteps dg before [] []
+| SS_cons before o a ops os : SpecStep dg before o a -> SpecSteps dg (o_after a) ops os ->
+                              SpecSteps dg before (o :: ops) (a :: os).
+
+Definition Spec (c : case) : Prop :=
+  SpecSteps (digest c) (map (listing_of (c_names c)) (c_vols c)) (c_ops c) (c_obs c).
+
+Lemma ok2_iff code : ok2 code = true <-> ok code.
+Proof. unfold ok2, ok. apply N.eqb_eq. Qed.
+
+Lemma good_copy_iff dg h x : good_copy dg h x = true <-> GoodCopy dg h x.
+Proof.
+  unfold good_copy, GoodCopy. destruct x as [|c|]; try (split; [discriminate|intros (c' & X & _); discriminate]).
+  rewrite andb_true_iff, String.eqb_eq, N.leb_le. split.
+  - intros [A B]. exists c. auto.
+  - intros (c' & X & A & B). inversion X; subst. auto.
+Qed.
+
+Lemma holds_intact_iff dg h l : holds_intact dg h l = true <-> exists x, In (h, x) l /\ GoodCopy dg h x.
+Proof.
+  unfold holds_intact. rewrite existsb_exists. split.
+  - intros ([k x] & A & B). cbn [fst snd] in B. apply andb_true_iff in B. destruct B as [B C].
+    apply String.eqb_eq in B. subst k. exists x. split; [exact A|apply good_copy_iff; exact C].
+  - intros (x & A & B). exists (h, x). split; [exact A|]. cbn [fst snd]. rewrite String.eqb_refl. cbn.
+    apply good_copy_iff; exact B.
+Qed.
+
+Lemma intact_somewhere_iff dg h ls : intact_somewhere dg h ls = true <-> IntactSomewhere dg h ls.
+Proof.
+  unfold intact_somewhere, IntactSomewhere. rewrite existsb_exists. split.
+  - intros (l & A & B). apply holds_intact_iff in B. destruct B as (x & B & C). exists l, x. auto.
+  - intros (l & x & A & B & C). exists l. split; [exact A|]. apply holds_intact_iff. eauto.
+Qed.
+
+Lemma opt_N_eqb_iff a b : opt_N_eqb a b = true <-> a = b.
+Proof.
+  destruct a as [x|], b as [y|]; cbn; try (split; [discriminate|intros X; inversion X]); try tauto.
+  rewrite N.eqb_eq. split; [intros ->; reflexivity|intros X; inversion X; reflexivity].
+Qed.
+
+Lemma eqb_true_iff_iff (a b : bool) (A B : Prop) :
+  (a = true <-> A) -> (b = true <-> B) -> (Bool.eqb a b = true <-> (A <-> B)).
+Proof. intros [X1 X2] [Y1 Y2]. destruct a, b; cbn; split; intros Z; try tauto; try discriminate;
+  destruct Z as [Z1 Z2]; try (specialize (Z1 (X1 eq_refl)); apply Y2 in Z1; discriminate);
+  try (specialize (Z2 (Y1 eq_refl)); apply X2 in Z2; discriminate). Qed.
+
+Lemma spec_get_iff dg before h a :
+  ((negb (ok2 (o_code a)) ||
+       match o_body a with
+       | Some b => String.eqb (dg b) h && opt_N_eqb (o_cl a) (Some (clen b))
+       | None => false
+       end) &&
+    Bool.eqb (ok2 (o_code a)) (intact_somewhere dg h before)) = true <->
+  ((ok (o_code a) -> exists b, o_body a = Some b /\ dg b = h /\ o_cl a = Some (clen b)) /\
+   (ok (o_code a) <-> IntactSomewhere dg h before)).
+Proof.
+  rewrite andb_true_iff.
+  rewrite (eqb_true_iff_iff _ _ _ _ (ok2_iff (o_code a)) (intact_somewhere_iff dg h before)).
+  assert (X : (negb (ok2 (o_code a)) ||
+       match o_body a with
+       | Some b => String.eqb (dg b) h && opt_N_eqb (o_cl a) (Some (clen b))
+       | None => false
+       end) = true <-> (ok (o_code a) -> exists b, o_body a = Some b /\ dg b = h /\ o_cl a = Some (clen b))).
+  { rewrite orb_true_iff, negb_true_iff. split.
+    - intros [A|A] Hok; [apply ok2_iff in Hok; congruence|].
+      destruct (o_body a) as [b|]; [|discriminate]. apply andb_true_iff in A. destruct A as [A B].
+      apply String.eqb_eq in A. apply opt_N_eqb_iff in B. eauto.
+    - intros Himp. destruct (ok2 (o_code a)) eqn:E; [right|left; reflexivity].
+      destruct (Himp (proj1 (ok2_iff _) E)) as (b & A & B & C). rewrite A.
+      apply andb_true_iff. split; [apply String.eqb_eq; exact B|apply opt_N_eqb_iff; exact C]. }
+  tauto.
+Qed.
+
+Lemma spec_step_iff dg before o a : spec_step dg before o a = true <-> SpecStep dg before o a.
+Proof.
+  destruct o as [h|h|h d]; cbn [spec_step SpecStep]; try apply spec_get_iff.
+  rewrite orb_true_iff, negb_true_iff, andb_true_iff, String.eqb_eq, intact_somewhere_iff. split.
+  - intros [A|A] Hok; [apply ok2_iff in Hok; congruence|exact A].
+  - intros Himp. destruct (ok2 (o_code a)) eqn:E; [right; apply Himp; apply ok2_iff; exact E|left; reflexivity].
+Qed.
+
+Lemma spec_steps_iff dg : forall ops before os, spec_steps dg before ops os = true <-> SpecSteps dg before ops os.
+Proof.
+  induction ops as [|o r IH]; intros before os; destruct os as [|a os']; cbn [spec_steps].
+  - split; [constructor|reflexivity].
+  - split; [discriminate|intros X; inversion X].
+  - split; [discriminate|intros X; inversion X].
+  - rewrite andb_true_iff, spec_step_iff, IH. split.
+    + intros [A B]. constructor; assumption.
+    + intros X; inversion X; subst; auto.
+Qed.
+
+Lemma spec_b_iff c : spec_b c = true <-> Spec c.
+Proof. apply spec_steps_iff. Qed.
+
+(* ------------------------------------------------------------------ *)
+(* the model's own trace satisfies the specification: for every digest function, every set of
+   volumes, every request list (block names used by the requests must be among the listed names) *)
+
+Definition op_name (o : op) : string := match o with Get h | Head h | Put h _ => h end.
+
+Section M.
+Variable H : content -> string.
+
+Lemma servable_listing names vs h :
+  In h names ->
+  ((exists v c, In v vs /\ servable H h v c) <-> IntactSomewhere H h (map (listing_of names) vs)).
+Proof.
+  intros Hn. unfold IntactSomewhere. split.
+  - intros (v & c & A & B & C & D). exists (listing_of names v), (File c). split; [apply in_map; exact A|].
+    split.
+    + unfold listing_of. apply in_map_iff. exists h. rewrite B. auto.
+    + exists c. auto.
+  - intros (l & x & A & B & c & -> & C & D). apply in_map_iff in A. destruct A as (v & <- & A).
+    unfold listing_of in B. apply in_map_iff in B. destruct B as (h' & B & _). inversion B; subst h'.
+    exists v, c. unfold servable. auto.
+Qed.
+
+Lemma model_step_spec names s o : In (op_name o) names ->
+  SpecStep H (map (listing_of names) (vols s)) o (obs_of names (handle H s o)).
+Proof.
+  intros Hn. destruct o as [h|h|h d]; cbn [op_name] in Hn; cbn [handle SpecStep obs_of fst snd].
+  1,2: (destruct (servable_listing names (vols s) h Hn) as [S1 S2]; split;
+    [ intros Hok; unfold handle_get in *; destruct (get_block H (vols s) h 404) as [c|e] eqn:Eg; cbn [code body clength o_code o_body o_cl] in *;
+      [ exists c; destruct (get_sound _ _ _ _ _ Eg) as (v & _ & _ & _ & X); auto
+      | exfalso; assert (Hall : forall v c, In v (vols s) -> ~ servable H h v c)
+          by (intros v c A B; destruct (get_complete H (vols s) h 404) as (c' & X & _); [eauto|congruence]);
+        destruct (get_error_otherwise H _ h 404 Hall) as (e' & X & [Y|Y]); rewrite Eg in X; inversion X; subst; unfold ok in Hok;
+        [ vm_compute in Hok; discriminate | vm_compute in Hok; discriminate ] ]
+    | split;
+      [ intros Hok; apply S1; unfold handle_get in Hok; destruct (get_block H (vols s) h 404) as [c|e] eqn:Eg;
+        [ destruct (get_sound _ _ _ _ _ Eg) as (v & A & B); eauto
+        | exfalso; cbn [code o_code] in Hok;
+          assert (Hall : forall v c, In v (vols s) -> ~ servable H h v c)
+            by (intros v c A B; destruct (get_complete H (vols s) h 404) as (c' & X & _); [eauto|congruence]);
+          destruct (get_error_otherwise H _ h 404 Hall) as (e' & X & [Y|Y]); rewrite Eg in X; inversion X; subst; unfold ok in Hok;
+          [ vm_compute in Hok; discriminate | vm_compute in Hok; discriminate ] ]
+      | intros Hi; apply S2 in Hi; destruct (handle_get_ok H s h Hi) as (c & E & _); rewrite E; reflexivity ] ]).
+  destruct (handle_put H s h d) as [r s'] eqn:Ep. cbn [fst snd o_code o_after]. intros Hok.
+  assert (Hc : code r = 200).
+  { unfold handle_put in Ep. destruct (BlockSize <? clen d); [inversion Ep; subst; vm_compute in Hok; discriminate|].
+    destruct (writable (vols s)); [inversion Ep; subst; vm_compute in Hok; discriminate|].
+    destruct (put_block H s h d) as [c s1] eqn:Epb. inversion Ep; subst. cbn [code] in *.
+    unfold put_block in Epb. destruct (negb (intact H h d)); [inversion Epb; subst; vm_compute in Hok; discriminate|].
+    destruct (compare_and_touch H (writable (vols s)) h d); [inversion Epb; reflexivity|inversion Epb; subst; vm_compute in Hok; discriminate|].
+    destruct (writable (vols s)) as [|w0 ws]; [inversion Epb; subst; vm_compute in Hok; discriminate|].
+    destruct (write_vol _ h d); [inversion Epb; reflexivity| |];
+    (destruct (put_loop (w0 :: ws) 0 h d true) as [i v'|[|]]; inversion Epb; subst; [reflexivity|vm_compute in Hok; discriminate|vm_compute in Hok; discriminate]). }
+  destruct (handle_put_ok H _ _ _ _ _ Ep Hc) as (A & B & v & C & D). split; [exact A|].
+  apply (servable_listing names (vols s') h Hn). exists v, d. unfold servable. auto.
+Qed.
+
+Theorem model_meets_spec names : forall ops s,
+  (forall o, In o ops -> In (op_name o) names) ->
+  SpecSteps H (map (listing_of names) (vols s)) ops (map (obs_of names) (run H s ops)).
+Proof.
+  induction ops as [|o r IH]; intros s Hn; cbn [run map]; [constructor|].
+  destruct (handle H s o) as [a s'] eqn:Eh. cbn [map]. constructor.
+  - rewrite <- Eh. apply model_step_spec. apply Hn. left; reflexivity.
+  - cbn [obs_of o_after snd]. apply IH. intros o' A. apply Hn. right; exact A.
+Qed.
+End M.
+
+(* the hypotheses of the theorems are satisfiable: a corrupt copy on a read-only first volume, an
+   intact copy on the second, then a PUT to a third (empty) writable volume *)
+Local Open Scope string_scope.
+Definition ex_H (c : content) : string := if (cid c =? 1)%N then "aaa1" else if (cid c =? 2)%N then "bbb2" else "zzz".
+Definition ex_vols : list vol :=
+  [ {| ro := true; full := false; badpfx := []; files := [("aaa1", File {| cid := 9; clen := 3 |})] |};
+    {| ro := false; full := false; badpfx := []; files := [("aaa1", File {| cid := 1; clen := 4 |})] |};
+    {| ro := false; full := false; badpfx := []; files := [] |} ].
+Example ex_get_passes_over_corrupt :
+  handle_get ex_H {| vols := ex_vols; counter := 0 |} "aaa1" =
+  {| code := 200; body := Some {| cid := 1; clen := 4 |}; clength := Some 4 |}.
+Proof. vm_compute. reflexivity. Qed.
+Example ex_put_acknowledged :
+  code (fst (handle_put ex_H {| vols := ex_vols; counter := 0 |} "bbb2" {| cid := 2; clen := 7 |})) = 200.
+Proof. vm_compute. reflexivity. Qed.
